@@ -700,6 +700,470 @@ theorem C14_view_of_copy_differs (a : AnyImage) (hp : Heap) (h : a.2.base ≠ hp
   simpa using this
 
 
+/-! ### deepening round 3: every overload shape, every binary algorithm, what fill / for_each / copies store -/
+
+/-- the three overload shapes of a `binary_operation_obj` algorithm (any/any, any/concrete, concrete/any) as they
+    are written in algorithm.hpp (`visit(op)`, `visit(bind(op, _1, dst))`, `visit(bind(op, src, _1))`) all reach
+    `op(held(src), held(dst))`; `binaryOp` (used by the driver) is the any/any shape -/
+theorem C14_overload_shapes {β : Type} (f : {t1 t2 : Tag} → View t1 → View t2 → Mem → β × Mem)
+    {t1 t2 : Tag} (s : View t1) (d : View t2) (m : Mem) :
+    binAA f (wrap s) (wrap d) m = binObj f s d m ∧ binAC f (wrap s) d m = binObj f s d m ∧
+    binCA f s (wrap d) m = binObj f s d m ∧ binaryOp f (wrap s) (wrap d) m = binObj f s d m ∧
+    applyOperation2 (wrap s) (wrap d) (fun s d => binObj f s d m) = binObj f s d m :=
+  ⟨rfl, rfl, rfl, rfl, rfl⟩
+
+/-- EVERY algorithm built on `binary_operation_obj`, in EVERY overload shape: incompatible alternatives give
+    std::bad_cast and the whole memory (hence the destination) is exactly what it was; compatible alternatives
+    give the concrete algorithm's value and memory -/
+theorem C14_bad_cast_every_binary {β : Type} (f : {t1 t2 : Tag} → View t1 → View t2 → Mem → β × Mem)
+    {t1 t2 : Tag} (s : View t1) (d : View t2) (m : Mem) :
+    (compatible t1.fmt t2.fmt = false →
+      binAA f (wrap s) (wrap d) m = (.error .badCast, m) ∧ binAC f (wrap s) d m = (.error .badCast, m) ∧
+      binCA f s (wrap d) m = (.error .badCast, m)) ∧
+    (compatible t1.fmt t2.fmt = true →
+      binAA f (wrap s) (wrap d) m = (.ok (f s d m).1, (f s d m).2) ∧ binAC f (wrap s) d m = (.ok (f s d m).1, (f s d m).2) ∧
+      binCA f s (wrap d) m = (.ok (f s d m).1, (f s d m).2)) := by
+  constructor <;> intro h <;> simp [binAA, binAC, binCA, visit1, visit2, binObj, wrap, h]
+
+/-- `copy_and_convert_pixels`: the mixed overloads (any/concrete, concrete/any, with or without a converter object)
+    store what the any/any overload stores; none of them ever throws; the converter passed is the one applied -/
+theorem C14_ccopy_overload_shapes (c : Conv) {t1 t2 : Tag} (s : View t1) (d : View t2) (m : Mem) :
+    ccAA c (wrap s) (wrap d) m = anyCopyAndConvert c (wrap s) (wrap d) m ∧
+    ccAC c (wrap s) d m = anyCopyAndConvert c (wrap s) (wrap d) m ∧
+    ccCA c s (wrap d) m = anyCopyAndConvert c (wrap s) (wrap d) m ∧
+    (ccAC c (wrap s) d m).1 = .ok () ∧ (ccCA c s (wrap d) m).1 = .ok () ∧
+    (compatible t1.fmt t2.fmt = false → (ccCA c s (wrap d) m).2 = copyPixels (ccView c t2.fmt s) d m ∧
+                                         (ccAC c (wrap s) d m).2 = copyPixels (ccView c t2.fmt s) d m) := by
+  refine ⟨rfl, rfl, rfl, ?_, ?_, ?_⟩
+  · by_cases h : compatible t1.fmt t2.fmt = true <;> simp [ccAC, visit1, ccObj, wrap, h]
+  · by_cases h : compatible t1.fmt t2.fmt = true <;> simp [ccCA, visit1, ccObj, wrap, h]
+  · intro h; simp [ccAC, ccCA, visit1, ccObj, wrap, h]
+
+/-- `fill_pixels(any_image_view, value)` is the visit of `fill_pixels_fn` (also through the deprecated
+    `apply_operation`) -/
+theorem C14_fill_is_visit (a : AnyView) (pf : Fmt) (p : List Nat) (m : Mem) :
+    anyFillPixels a pf p m = visit1 (fun v => fillObj pf p v m) a ∧
+    anyFillPixels a pf p m = applyOperation1 a (fun v => fillObj pf p v m) := ⟨rfl, rfl⟩
+
+private theorem fill_fold {t : Tag} (d : View t) (q : List Nat) (m : Mem) (hinj : cellsInjective d) (hq : q.length = d.ns)
+    (l : List (Nat × Nat)) (hl : ∀ a ∈ l, a.1 < d.w ∧ a.2 < d.h) :
+    ∀ b ∈ l, d.raw (l.foldl (fun m xy => d.write m xy.1 xy.2 q) m) b.1 b.2 = q := by
+  induction l using List.reverseRecOn with
+  | nil => exact fun b hb => absurd hb List.not_mem_nil
+  | append_singleton l a ih =>
+    have hl' : ∀ b ∈ l, b.1 < d.w ∧ b.2 < d.h := fun b hb => hl b (List.mem_append_left _ hb)
+    obtain ⟨hax, hay⟩ := hl a (List.mem_append_right _ (List.mem_singleton_self a))
+    rw [List.foldl_append]
+    simp only [List.foldl]
+    intro b hb
+    by_cases hba : b = a
+    · subst hba; exact raw_write_same d _ b.1 b.2 q hax hay hinj hq
+    · have hbl : b ∈ l := by
+        rcases List.mem_append.mp hb with h | h
+        · exact h
+        · exact absurd (List.mem_singleton.mp h) hba
+      obtain ⟨hbx, hby⟩ := hl' b hbl
+      rw [raw_write_other d _ a.1 a.2 b.1 b.2 q hax hay hbx hby
+        (fun e => hba (Prod.ext (by simpa using congrArg Prod.fst e) (by simpa using congrArg Prod.snd e))) hinj]
+      exact ih hl' b hbl
+
+/-- what a (compatible) `fill_pixels` stores: EVERY pixel of the view then holds the value, channels paired by
+    colour (the view's slots being distinct cells) -/
+theorem C14_fill_pixels_correct {t : Tag} (v : View t) (pf : Fmt) (p : List Nat) (m : Mem)
+    (hinj : cellsInjective v) (hns : v.ns = t.fmt.nc) (x y : Nat) (hx : x < v.w) (hy : y < v.h) :
+    v.raw (fillPixels v pf p m) x y = pairPx pf t.fmt p :=
+  fill_fold v (pairPx pf t.fmt p) m hinj (by rw [pairPx_length, hns]) (coords v.w v.h) (fun a ha => mem_coords.mp ha)
+    (x, y) (mem_coords.mpr ⟨hx, hy⟩)
+
+/-- through the run-time typed interface, on the view of an any_image: a compatible value fills every pixel,
+    an incompatible one throws and nothing changes -/
+theorem C14_any_fill_image (a : AnyImage) (pf : Fmt) (p : List Nat) (m : Mem) :
+    (compatible a.1 pf = true → (anyFillPixels a.view pf p m).1 = .ok () ∧
+        ∀ x y, x < a.2.w → y < a.2.h → a.2.view.raw (anyFillPixels a.view pf p m).2 x y = pairPx pf a.1 p) ∧
+    (compatible a.1 pf = false → anyFillPixels a.view pf p m = (.error .badCast, m)) := by
+  obtain ⟨hn, hw, hh⟩ := view_ns a.2
+  constructor
+  · intro hc
+    have hd : anyFillPixels a.view pf p m = (.ok (), fillPixels a.2.view pf p m) := by
+      simp [anyFillPixels, AnyImage.view, Tag.ofFmt, hc]
+    rw [hd]
+    refine ⟨rfl, fun x y hx hy => ?_⟩
+    exact C14_fill_pixels_correct a.2.view pf p m (C14_image_view_injective a.2) hn x y (by rw [hw]; exact hx) (by rw [hh]; exact hy)
+  · intro hc; simp [anyFillPixels, AnyImage.view, Tag.ofFmt, hc]
+
+private theorem coords_length (w h : Nat) : (coords w h).length = w * h := by
+  unfold coords
+  induction h with
+  | zero => simp
+  | succ n ih => rw [List.range_succ, List.flatMap_append, List.length_append, ih]; simp [Nat.mul_succ]
+
+private theorem foreach_fst {t : Tag} (v : View t) (l : List (Nat × Nat)) (st : Nat × Mem) :
+    (l.foldl (fun (st : Nat × Mem) xy =>
+      (st.1 + 1, upd st.2 (v.cell xy.1 xy.2 0) ((st.2 (v.cell xy.1 xy.2 0) + st.1) % 2 ^ t.fmt.bits))) st).1 = st.1 + l.length := by
+  induction l generalizing st with
+  | nil => rfl
+  | cons a as ih => simp only [List.foldl, List.length_cons]; rw [ih]; simp only []; omega
+
+private theorem foreach_keeps {t : Tag} (v : View t) (c : Int) (l : List (Nat × Nat)) (st : Nat × Mem)
+    (hl : ∀ a ∈ l, v.cell a.1 a.2 0 ≠ c) :
+    (l.foldl (fun (st : Nat × Mem) xy =>
+      (st.1 + 1, upd st.2 (v.cell xy.1 xy.2 0) ((st.2 (v.cell xy.1 xy.2 0) + st.1) % 2 ^ t.fmt.bits))) st).2.get c = st.2.get c := by
+  induction l generalizing st with
+  | nil => rfl
+  | cons a as ih =>
+    simp only [List.foldl]
+    rw [ih _ (fun b hb => hl b (List.mem_cons_of_mem _ hb))]
+    have := hl a List.mem_cons_self
+    simp [upd, Ne.symm this]
+
+/-- `for_each_pixel(any_image_view, F)`: the functor that comes back has been called once per pixel of the held
+    view (functor state is returned, not dropped), and no cell outside the view is touched -/
+theorem C14_foreach_count_frame (a : AnyView) (m : Mem) :
+    (anyForEach a m).1 = a.width * a.height ∧
+    (∀ c, ¬ owns a.2 c → 1 ≤ a.2.ns → (anyForEach a m).2.get c = m.get c) ∧
+    anyForEach a m = visit1 (fun v => forEachCount v m) a := by
+  refine ⟨?_, ?_, rfl⟩
+  · simp only [anyForEach, forEachCount, AnyView.width, AnyView.height]
+    rw [foreach_fst, coords_length]; omega
+  · intro c hc hns
+    simp only [anyForEach, forEachCount]
+    apply foreach_keeps
+    intro xy hxy e
+    obtain ⟨hx, hy⟩ := mem_coords.mp (show (xy.1, xy.2) ∈ coords a.2.w a.2.h from hxy)
+    exact hc ⟨xy.1, xy.2, 0, hx, hy, by omega, e⟩
+
+/-- frame for the remaining lifted writers: `resize_view` (binary64 matrix) and `fill_pixels` touch no cell outside the
+    destination view, compatible or not -/
+theorem C14_any_frame_rest (a b : AnyView) (m : Mem) (c : Int) (h : ¬ owns b.2 c) (pf : Fmt) (p : List Nat) :
+    (anyResize a b m).2.get c = m.get c ∧ (anyFillPixels b pf p m).2.get c = m.get c := by
+  constructor
+  · simp only [anyResize, binaryOp]; split
+    · simp only [resampleNNF]
+      apply foldl_keeps
+      intro m' xy hxy
+      obtain ⟨hx, hy⟩ := mem_coords.mp (show (xy.1, xy.2) ∈ coords b.2.w b.2.h from hxy)
+      split
+      · exact write_keeps b.2 m' xy.1 xy.2 _ c hx hy h
+      · rfl
+    · rfl
+  · simp only [anyFillPixels]; split
+    · exact C14_fill_frame _ _ _ _ _ h
+    · rfl
+
+/-- `nth_channel_view(any_image_view, n)`: the single channel read through the result is channel `n` of the held
+    view's pixel at the same coordinate -/
+theorem C14_nth_reads {t : Tag} (v : View t) (n : Nat) (m : Mem) (x y : Nat) (hn : n < v.ns) :
+    ((Xf.nth n).lift (wrap v)).2.raw m x y = [(v.raw m x y).getD n 0] := by
+  simp only [Xf.lift, wrap, Xf.apply, View.raw, View.cell]
+  simp only [List.range_succ, List.range_zero, List.nil_append, List.map_cons, List.map_nil, List.getD_eq_getElem?_getD,
+    List.getElem?_map, List.getElem?_range hn, Option.map_some, Option.getD_some]
+  congr 2
+  push_cast; ring
+
+/-- the result alternative of `subimage_view`, `subsampled_view` and `nth_channel_view` does not depend on the run-time
+    arguments (rectangle, steps, channel number): the checked instances of `C14_index_preserved_L7/LB` stand for all -/
+theorem C14_tag_param_independent (t : Tag) (x0 y0 w h sx sy n : Nat) :
+    (Xf.sub x0 y0 w h).tag t = t ∧ (Xf.subs sx sy).tag t = (Xf.subs 1 1).tag t ∧ (Xf.nth n).tag t = (Xf.nth 0).tag t :=
+  ⟨rfl, rfl, rfl⟩
+
+/-- `nth_channel_view` on the list L6: every alternative yields its concrete result type (gray, same depth), and the
+    variant built from it holds the FIRST alternative of that type in the mapped list -/
+theorem C14_nth_index_L6 :
+    L6.map (fun f => indexOf ((Xf.nth 0).tag (Tag.ofFmt f)) (L6.map (fun g => (Xf.nth 0).tag (Tag.ofFmt g)))) = [0, 1, 1, 0, 1, 5] ∧
+    ∀ f ∈ L6, ((Xf.nth 0).tag (Tag.ofFmt f)).fmt = ⟨.gray, .fwd, f.depth, .interleaved⟩ := by
+  decide
+
+/-- a deep copy compares EQUAL to its source (`any_image ==` right after copy construction / assignment) -/
+theorem C14_copy_equal_source (a : AnyImage) (hp : Heap) (hfit : a.2.base + a.2.size ≤ hp.next) :
+    (a.copy hp).1.beq a (a.copy hp).2.mem = true := by
+  rw [C14_image_equality_lifts]
+  refine ⟨rfl, rfl, rfl, ?_⟩
+  obtain ⟨hn, hw, hh⟩ := view_ns a.2
+  obtain ⟨hn', hw', hh'⟩ := view_ns (a.copy hp).1.2
+  have hadapt : ∀ {f : Fmt} (i : Image f), i.view.adapt = [] := by
+    intro f i; unfold Image.view; cases f.org <;> rfl
+  unfold equalPixels
+  rw [List.all_eq_true]
+  intro xy hxy
+  obtain ⟨hx, hy⟩ := mem_coords.mp (show (xy.1, xy.2) ∈ coords _ _ from hxy)
+  rw [hw'] at hx; rw [hh'] at hy
+  have hx' : xy.1 < a.2.w := hx
+  have hy' : xy.2 < a.2.h := hy
+  have e : (a.copy hp).1.2.view.px (a.copy hp).2.mem xy.1 xy.2 = a.2.view.px (a.copy hp).2.mem xy.1 xy.2 := by
+    unfold View.px
+    rw [hadapt, hadapt]
+    simp only [List.foldl]
+    unfold View.raw
+    rw [hn', hn]
+    apply List.map_congr_left
+    intro k hk
+    have hk' : k < a.1.nc := List.mem_range.mp hk
+    rw [C14_copy_deep_content a hp xy.1 xy.2 k hx' hy' hk']
+    have hb := C14_image_cells_in_block a.2 xy.1 xy.2 k hx' hy' hk'
+    have : ((a.2.base + a.2.size : Nat) : Int) ≤ hp.next := by exact_mod_cast hfit
+    push_cast at this
+    exact (C14_copy_keeps_old_cells a hp _ (by omega)).symm
+  rw [e]
+  have hlen : (a.2.view.px (a.copy hp).2.mem xy.1 xy.2).length = a.1.nc := by
+    unfold View.px; rw [hadapt]; simp [View.raw, hn]
+  have := C14_pair_same_format a.1 _ hlen
+  show (pairPx a.1 a.1 (a.2.view.px (a.copy hp).2.mem xy.1 xy.2) == a.2.view.px (a.copy hp).2.mem xy.1 xy.2) = true
+  rw [this]
+  simp
+
+/-- `recreate`: fresh storage — every cell that existed before keeps its value, and the recreated image's cells
+    are none of the old ones -/
+theorem C14_recreate_fresh (a : AnyImage) (w h : Nat) (hp : Heap) :
+    (∀ c : Int, c < hp.next → (a.recreate w h hp).2.mem.get c = hp.mem.get c) ∧
+    (∀ x y k, x < w → y < h → k < a.1.nc → (hp.next : Int) ≤ (a.recreate w h hp).1.2.view.cell x y k) := by
+  constructor
+  · intro c hc
+    simp only [AnyImage.recreate]
+    rw [newImage_get, if_neg (by omega)]
+  · intro x y k hx hy hk
+    exact (C14_image_cells_in_block (a.recreate w h hp).1.2 x y k hx hy hk).1
+
+/-! ### what the results mean: equal_pixels, copy-then-equal, identity resampling, composed transformations -/
+
+/-- `equal_pixels` returns true exactly when every pixel of the source, channels paired by colour, equals the pixel of
+    the destination at the same coordinate -/
+theorem C14_equal_pixels_correct {t1 t2 : Tag} (s : View t1) (d : View t2) (m : Mem) :
+    equalPixels s d m = true ↔ ∀ x y, x < s.w → y < s.h → pairPx t1.fmt t2.fmt (s.px m x y) = d.px m x y := by
+  unfold equalPixels
+  rw [List.all_eq_true]
+  constructor
+  · intro h x y hx hy
+    have := h (x, y) (mem_coords.mpr ⟨hx, hy⟩)
+    simpa using this
+  · intro h xy hxy
+    obtain ⟨hx, hy⟩ := mem_coords.mp (show (xy.1, xy.2) ∈ coords s.w s.h from hxy)
+    simpa using h xy.1 xy.2 hx hy
+
+/-- copy then compare, both through the run-time typed interface: after `copy_pixels(view(a), view(b))` on two
+    any_images of compatible alternatives (equal dimensions, disjoint blocks), `equal_pixels(view(a), view(b))` is true -/
+theorem C14_copy_then_equal (a b : AnyImage) (m : Mem) (hc : compatible a.1 b.1 = true)
+    (hw : a.2.w = b.2.w) (hh : a.2.h = b.2.h) (hdis : a.2.base + a.2.size ≤ b.2.base) :
+    anyEqualPixels a.view b.view (anyCopyPixels a.view b.view m).2 = (.ok true, (anyCopyPixels a.view b.view m).2) := by
+  obtain ⟨hna, hwa, hha⟩ := view_ns a.2
+  have hadapt : b.2.view.adapt = [] := by unfold Image.view; cases b.1.org <;> rfl
+  have he : equalPixels a.2.view b.2.view (anyCopyPixels a.view b.view m).2 = true := by
+    rw [C14_equal_pixels_correct]
+    intro x y hx hy
+    rw [hwa] at hx; rw [hha] at hy
+    obtain ⟨-, h2, h3⟩ := C14_any_copy_between_images a b m hc hw hh hdis x y (by omega) (by omega)
+    have hpx : b.2.view.px (anyCopyPixels a.view b.view m).2 x y = b.2.view.raw (anyCopyPixels a.view b.view m).2 x y := by
+      unfold View.px; rw [hadapt]; rfl
+    rw [hpx, h2, h3]; rfl
+  simp only [anyEqualPixels, binaryOp, AnyImage.view, Tag.ofFmt, hc, if_true]
+  simp only [AnyImage.view, Tag.ofFmt] at he
+  rw [he]
+
+private theorem iroundQ_four (x : Nat) : iroundQ ((x : Int) * 4 + 0 + 0) = x := by
+  unfold iroundQ
+  have h0 : ¬ ((x : Int) * 4 + 0 + 0 < 0) := by omega
+  rw [if_neg h0, Int.tdiv_eq_ediv_of_nonneg (by omega)]
+  omega
+
+private theorem foldl_congr_mem {α β : Type} (l : List α) (f g : β → α → β) (h : ∀ b a, a ∈ l → f b a = g b a) (b : β) :
+    l.foldl f b = l.foldl g b := by
+  induction l generalizing b with
+  | nil => rfl
+  | cons a as ih =>
+    simp only [List.foldl]
+    rw [h b a List.mem_cons_self]
+    exact ih (fun b x hx => h b x (List.mem_cons_of_mem _ hx)) _
+
+/-- `resample_pixels` with the identity matrix and the nearest-neighbour sampler is `copy_pixels` (views of equal
+    dimensions): hence, lifted, `resample_pixels(any, any, identity)` = `copy_pixels(any, any)` incl. the bad_cast case -/
+theorem C14_resample_identity_is_copy (a b : AnyView) (m : Mem) (hw : a.2.w = b.2.w) (hh : a.2.h = b.2.h) :
+    anyResample [4, 0, 0, 4, 0, 0] a b m = anyCopyPixels a b m := by
+  obtain ⟨t1, s⟩ := a
+  obtain ⟨t2, d⟩ := b
+  simp only [anyResample, anyCopyPixels, binaryOp]
+  split
+  · congr 1
+    unfold resampleNN copyPixels
+    apply foldl_congr_mem
+    intro m' xy hxy
+    obtain ⟨hx, hy⟩ := mem_coords.mp (show (xy.1, xy.2) ∈ coords d.w d.h from hxy)
+    have e1 : iroundQ ((xy.1 : Int) * 4 + (xy.2 : Int) * 0 + 0) = xy.1 := by
+      have := iroundQ_four xy.1; simpa using this
+    have e2 : iroundQ ((xy.1 : Int) * 0 + (xy.2 : Int) * 4 + 0) = xy.2 := by
+      have := iroundQ_four xy.2; simpa using this
+    simp only [List.getD_cons_zero, List.getD_cons_succ, e1, e2, Int.toNat_natCast]
+    have hin : (0 : Int) ≤ (xy.1 : Int) ∧ (0 : Int) ≤ (xy.2 : Int) ∧ (xy.1 : Int) < s.w ∧ (xy.2 : Int) < s.h := by
+      simp only at hw hh
+      refine ⟨by omega, by omega, by omega, by omega⟩
+    rw [if_pos hin]
+  · rfl
+
+/-- composed lifted transformations reach the cells the concrete compositions reach: the flips and the 180° rotation are
+    involutions, the two 90° rotations and the transposition undo each other, `rot180 = flipUD ∘ flipLR`, and a
+    sub-rectangle of a sub-rectangle is the sub-rectangle at the summed offset (for every coordinate, no bound) -/
+theorem C14_lift_compositions {t : Tag} (v : View t) (x y k : Nat) :
+    (Xf.flipLR.apply (Xf.flipLR.apply v)).cell x y k = v.cell x y k ∧
+    (Xf.flipUD.apply (Xf.flipUD.apply v)).cell x y k = v.cell x y k ∧
+    (Xf.rot180.apply (Xf.rot180.apply v)).cell x y k = v.cell x y k ∧
+    (Xf.transpose.apply (Xf.transpose.apply v)).cell x y k = v.cell x y k ∧
+    (Xf.rot90ccw.apply (Xf.rot90cw.apply v)).cell x y k = v.cell x y k ∧
+    (Xf.rot90cw.apply (Xf.rot90ccw.apply v)).cell x y k = v.cell x y k ∧
+    (Xf.flipUD.apply (Xf.flipLR.apply v)).cell x y k = (Xf.rot180.apply v).cell x y k ∧
+    (Xf.rot90cw.apply (Xf.rot90cw.apply v)).cell x y k = (Xf.rot180.apply v).cell x y k ∧
+    (∀ a b w h c d w' h', ((Xf.sub a b w h).apply ((Xf.sub c d w' h').apply v)).cell x y k =
+        ((Xf.sub (c + a) (d + b) w h).apply v).cell x y k) ∧
+    (∀ sx sy sx' sy', ((Xf.subs sx sy).apply ((Xf.subs sx' sy').apply v)).cell x y k =
+        ((Xf.subs (sx' * sx) (sy' * sy)).apply v).cell x y k) := by
+  refine ⟨?_, ?_, ?_, ?_, ?_, ?_, ?_, ?_, ?_, ?_⟩ <;>
+    (try intros) <;> simp only [Xf.apply, View.cell] <;> push_cast <;> ring
+
+/-- dimensions of the composed transformations (the run-time typed wrappers report them through `dimensions()`) -/
+theorem C14_lift_compositions_dims (a : AnyView) :
+    (Xf.rot90ccw.lift (Xf.rot90cw.lift a)).width = a.width ∧ (Xf.rot90ccw.lift (Xf.rot90cw.lift a)).height = a.height ∧
+    (Xf.transpose.lift (Xf.transpose.lift a)).width = a.width ∧ (Xf.rot90cw.lift (Xf.rot90cw.lift a)).height = a.height ∧
+    (Xf.transpose.lift a).width = a.height ∧ (Xf.transpose.lift a).height = a.width :=
+  ⟨rfl, rfl, rfl, rfl, rfl, rfl⟩
+
+/-- `at_c` over the table of the alternatives' channel counts, indexed by the run-time index of the held alternative,
+    is `num_channels()` of the run-time typed image — for every type list containing the held alternative -/
+theorem C14_at_c_num_channels (L : List Fmt) (a : AnyImage) (h : a.1 ∈ L) :
+    atC (L.map Fmt.nc) (a.index L) = a.numChannels := by
+  obtain ⟨f, i⟩ := a
+  simp only [AnyImage.index, AnyImage.numChannels, atC] at *
+  induction L with
+  | nil => exact absurd h List.not_mem_nil
+  | cons g gs ih =>
+    simp only [indexOf, List.map_cons]
+    by_cases hg : g = f
+    · simp [hg]
+    · simp only [hg, if_false, List.getD_cons_succ]
+      exact ih (by rcases List.mem_cons.mp h with e | e; exact absurd e.symm hg; exact e)
+
+/-- the block structure of `at_c` is the plain table lookup for every list shorter than the block limit (all type lists
+    of this check; any_image's own members no longer use `at_c`) -/
+theorem C14_at_c_small (size index : Nat) (hs : size < 226) (hi : index < size) : atCBlock size index = some index := by
+  unfold atCBlock
+  have : size / 226 = 0 := Nat.div_eq_of_lt hs
+  simp [this, hi]
+
+/-- OBSERVATION (outside the clauses of C14; reported to the lead, reproduced on the real header with UBSan): for a list of
+    226 or more entries the element at position 225 (and 451, 677) is not reachable — the first block's table has 225
+    entries and is indexed with 225 (out-of-bounds read) -/
+theorem C14_at_c_block_limit_observation :
+    atCBlock 226 225 = none ∧ atCBlock 300 225 = none ∧ atCBlock 300 224 = some 224 ∧ atCBlock 300 226 = some 226 := by
+  decide
+
+/-- a default-constructed any_image holds the first alternative of its list and is empty (and so is its view) -/
+theorem C14_default_constructed (f : Fmt) (L : List Fmt) :
+    (AnyImage.dflt f).index (f :: L) = 0 ∧ (AnyImage.dflt f).width = 0 ∧ (AnyImage.dflt f).height = 0 ∧
+    (AnyImage.dflt f).numChannels = f.nc ∧ (AnyImage.dflt f).view.size = 0 ∧
+    (AnyImage.dflt f).view.index ((f :: L).map Tag.ofFmt) = 0 := by
+  refine ⟨by simp [AnyImage.index, AnyImage.dflt, indexOf], rfl, rfl, rfl, ?_, by simp [AnyView.index, AnyImage.view, AnyImage.dflt, indexOf]⟩
+  simp only [AnyView.size, AnyImage.view, AnyImage.dflt, Image.view]; cases f.org <;> rfl
+
+/-! ### deep equality is broken by a write to the copy; what the converting copy stores -/
+
+/-- a write through the view of a deep copy is invisible through the original: every pixel of the original reads as before -/
+theorem C14_copy_write_isolated (a : AnyImage) (hp : Heap) (hfit : a.2.base + a.2.size ≤ hp.next)
+    (x y : Nat) (p : List Nat) (hx : x < a.2.w) (hy : y < a.2.h) (x' y' : Nat) (hx' : x' < a.2.w) (hy' : y' < a.2.h) :
+    a.2.view.px ((a.copy hp).1.2.view.write (a.copy hp).2.mem x y p) x' y' = a.2.view.px (a.copy hp).2.mem x' y' := by
+  obtain ⟨hn, hw, hh⟩ := view_ns a.2
+  obtain ⟨hn', hw', hh'⟩ := view_ns (a.copy hp).1.2
+  apply px_congr _ _ _ _ _ (by rw [hw]; exact hx') (by rw [hh]; exact hy')
+  rintro c ⟨x2, y2, k2, g1, g2, g3, rfl⟩
+  rw [hw] at g1; rw [hh] at g2; rw [hn] at g3
+  apply write_keeps _ _ _ _ _ _ (by rw [hw']; exact hx) (by rw [hh']; exact hy)
+  rintro ⟨x1, y1, k1, h1, h2, h3, e⟩
+  rw [hw'] at h1; rw [hh'] at h2; rw [hn'] at h3
+  exact (C14_copy_deep a hp hfit x1 y1 k1 x2 y2 k2 h1 h2 h3 g1 g2 g3).2.2.2 e
+
+/-- any_image equality is DEEP: storing a pixel value in the copy that differs from the original's pixel there makes the
+    copy compare unequal to its source (while `C14_copy_equal_source`: equal right after the copy) -/
+theorem C14_equality_deep (a : AnyImage) (hp : Heap) (hfit : a.2.base + a.2.size ≤ hp.next)
+    (x y : Nat) (p : List Nat) (hx : x < a.2.w) (hy : y < a.2.h) (hlen : p.length = a.1.nc)
+    (hne : p ≠ a.2.view.px (a.copy hp).2.mem x y) :
+    (a.copy hp).1.beq a ((a.copy hp).1.2.view.write (a.copy hp).2.mem x y p) = false := by
+  obtain ⟨hn', hw', hh'⟩ := view_ns (a.copy hp).1.2
+  have hadapt : ∀ {f : Fmt} (i : Image f), i.view.adapt = [] := by
+    intro f i; unfold Image.view; cases f.org <;> rfl
+  have hks : (a.copy hp).1.2.view.ks ≠ 0 := by
+    have hwpos : 0 < a.2.w := by omega
+    have hhpos : 0 < a.2.h := by omega
+    have : 0 < a.2.w * a.2.h := Nat.mul_pos hwpos hhpos
+    simp only [AnyImage.copy, Heap.newImage, Image.view]
+    cases a.1.org <;> simp <;> omega
+  have : ¬ ((a.copy hp).1.beq a ((a.copy hp).1.2.view.write (a.copy hp).2.mem x y p) = true) := by
+    rw [C14_image_equality_lifts]
+    rintro ⟨-, -, -, he⟩
+    rw [C14_equal_pixels_correct] at he
+    have h1 := he x y (by rw [hw']; exact hx) (by rw [hh']; exact hy)
+    rw [C14_copy_write_isolated a hp hfit x y p hx hy x y hx hy] at h1
+    have hrd : (a.copy hp).1.2.view.px ((a.copy hp).1.2.view.write (a.copy hp).2.mem x y p) x y = p := by
+      unfold View.px; rw [hadapt]
+      exact C14_write_read _ _ x y p hks (by rw [hn']; exact hlen)
+    rw [hrd] at h1
+    have hid := C14_pair_same_format a.1 p hlen
+    apply hne
+    rw [← h1]
+    exact hid.symm
+  simpa using this
+
+private theorem cc_adapt {t : Tag} (v : View t) (d : Fmt) (c : Conv) (h : sameValueType t.fmt d = false) :
+    ((Xf.cc d c).apply v).adapt = v.adapt ++ [⟨t.fmt, { d with org := .interleaved }, c⟩] ∧
+    ((Xf.cc d c).tag t).fmt = { d with org := .interleaved } := by
+  simp only [Xf.apply, Xf.tag, h]
+  exact ⟨rfl, rfl⟩
+
+private theorem adapt_apply_length (a : Adapt) (p : List Nat) : (a.apply p).length = a.dst.nc := by
+  unfold Adapt.apply
+  cases a.conv <;> simp [convDefault, convSum, fromSem]
+
+/-- what `copy_and_convert_pixels` stores for INCOMPATIBLE alternatives (any overload shape, any converter object): every
+    destination pixel holds the converter applied to the source pixel at the same coordinate, and the source is unchanged
+    (destination slots distinct cells, disjoint from the source, source without adaptors) -/
+theorem C14_ccopy_correct (c : Conv) {t1 t2 : Tag} (s : View t1) (d : View t2) (m : Mem)
+    (hinc : compatible t1.fmt t2.fmt = false) (hs : s.adapt = [])
+    (hw : s.w = d.w) (hh : s.h = d.h) (hinj : cellsInjective d) (hdis : ∀ c, owns d c → ¬ owns s c)
+    (hns : d.ns = t2.fmt.nc) (x y : Nat) (hx : x < d.w) (hy : y < d.h) :
+    d.raw (ccCA c s (wrap d) m).2 x y = (Adapt.mk t1.fmt { t2.fmt with org := .interleaved } c).apply (s.raw m x y) ∧
+    d.raw (ccAC c (wrap s) d m).2 x y = d.raw (ccCA c s (wrap d) m).2 x y ∧
+    d.raw (anyCopyAndConvert c (wrap s) (wrap d) m).2 x y = d.raw (ccCA c s (wrap d) m).2 x y := by
+  refine ⟨?_, rfl, rfl⟩
+  have hsv : sameValueType t1.fmt t2.fmt = false := by
+    revert hinc; simp only [compatible, sameValueType]
+    cases decide (t1.fmt.cs = t2.fmt.cs) <;> cases decide (t1.fmt.depth = t2.fmt.depth) <;> cases decide (t1.fmt.order = t2.fmt.order) <;> simp
+  obtain ⟨had, hfmt⟩ := cc_adapt s t2.fmt c hsv
+  have hcw : (ccView c t2.fmt s).w = d.w := by rw [ccView, apply_w]; exact hw
+  have hch : (ccView c t2.fmt s).h = d.h := by rw [ccView, apply_h]; exact hh
+  have hcns : (ccView c t2.fmt s).ns = s.ns := apply_ns _ (fun n => by simp) s
+  have hcell : ∀ x y k, x < d.w → y < d.h → (ccView c t2.fmt s).cell x y k = s.cell x y k := by
+    intro x y k hx hy
+    have := C14_lift_cell (Xf.cc t2.fmt c) s x y k (by rw [← ccView, hcw]; exact hx) (by rw [← ccView, hch]; exact hy)
+    simp only [Xf.phi] at this
+    exact this
+  have hdis' : ∀ c', owns d c' → ¬ owns (ccView c t2.fmt s) c' := by
+    rintro c' ho ⟨x1, y1, k1, h1, h2, h3, e⟩
+    rw [hcw] at h1; rw [hch] at h2; rw [hcns] at h3
+    exact hdis c' ho ⟨x1, y1, k1, by omega, by omega, h3, by rw [← hcell x1 y1 k1 h1 h2]; exact e⟩
+  have key := (C14_copy_pixels_correct (ccView c t2.fmt s) d m hcw hch hinj hdis' hns x y hx hy).1
+  have hd : (ccCA c s (wrap d) m).2 = copyPixels (ccView c t2.fmt s) d m := by
+    simp [ccCA, visit1, ccObj, wrap, hinc]
+  rw [hd, key]
+  have hpx : (ccView c t2.fmt s).px m x y = (Adapt.mk t1.fmt { t2.fmt with org := .interleaved } c).apply (s.raw m x y) := by
+    unfold View.px
+    rw [show (ccView c t2.fmt s).adapt = _ from had, hs]
+    simp only [List.nil_append, List.foldl]
+    congr 1
+    unfold View.raw
+    rw [hcns]
+    apply List.map_congr_left
+    intro k _
+    rw [hcell x y k hx hy]
+  rw [hpx]
+  have hl := adapt_apply_length (Adapt.mk t1.fmt { t2.fmt with org := .interleaved } c) (s.raw m x y)
+  have hid := C14_pair_same_format t2.fmt _ (show _ = t2.fmt.nc from hl)
+  rw [show ((Xf.cc t2.fmt c).tag t1).fmt = _ from hfmt]
+  exact hid
+
 /-! ### concrete instances of the hypotheses used above (the theorems are not vacuous) -/
 
 section Examples
@@ -726,6 +1190,21 @@ example : exImg.base + exImg.size ≤ exHeap.next ∧ exImg.base ≠ exHeap.next
 -- nth_channel_view merges alternatives of L6 (rgb8, bgr8 and rgba8 all give a gray8 step view): the injectivity
 -- hypothesis of C14_index_preserved fails there, and a variant built from the result holds the first such type
 example : (Xf.nth 0).tag (Tag.ofFmt rgb8) = (Xf.nth 0).tag (Tag.ofFmt bgr8) := by decide
+-- hypotheses of C14_fill_pixels_correct / C14_any_fill_image on the image view; a compatible and an incompatible value
+example : exImg.view.ns = (Tag.ofFmt rgb8).fmt.nc ∧ compatible rgb8 bgr8 = true ∧ compatible rgb8 g8 = false := by decide
+example : pairPx bgr8 rgb8 [3, 2, 1] = [1, 2, 3] := by decide
+-- C14_nth_reads: channel 1 < 3 channels
+example : 1 < exImg.view.ns := by decide
+-- C14_copy_equal_source / C14_bad_cast_every_binary hypotheses
+example : exImg.base + exImg.size ≤ exHeap.next := by decide
+example : compatible (Tag.ofFmt rgb8).fmt (Tag.ofFmt rgb16).fmt = false := by decide
+-- hypotheses of C14_copy_then_equal / C14_any_copy_between_images: a second 3 x 2 image (bgr8) in a disjoint block
+private def exImg2 : Image bgr8 := ⟨3, 2, 1500⟩
+example : compatible rgb8 bgr8 = true ∧ exImg.w = exImg2.w ∧ exImg.h = exImg2.h ∧ exImg.base + exImg.size ≤ exImg2.base := by decide
+-- C14_at_c_num_channels: rgba8 is the fifth alternative of L7; its table entry is 4
+example : rgba8 ∈ L7 ∧ atC (L7.map Fmt.nc) 4 = 4 := by decide
+-- C14_equality_deep / C14_ccopy_correct hypotheses: a pixel value of the right length; an incompatible pair
+example : [1, 2, 3].length = rgb8.nc ∧ compatible (Tag.ofFmt rgb8).fmt (Tag.ofFmt g8).fmt = false ∧ exImg.view.adapt = [] := by decide
 end Examples
 
 end GilVerif.Props.C14
